@@ -12,7 +12,9 @@ CONSTANTS
   MaxCrash = 1
   AllowWindow = FALSE
   StartStates = {"empty", "data", "ownsnap", "data+ownsnap"}
+  OtherAtStart = {FALSE}
+  OnlyOnce = FALSE
 SPECIFICATION Spec
-INVARIANTS TypeOK NoLocalLoss PublishedWhenIdle
-PROPERTIES CommittedOnlyAfterStore LSNeverBackwards NoEchoUpload NoUploadBeforeOwnMerged BucketMonotone
+INVARIANTS TypeOK NoLocalLoss PublishedWhenIdle ReadyMeansLoaded ReadyMeansPublished ExitOnlyWhenDone
+PROPERTIES CommittedOnlyAfterStore LSNeverBackwards NoEchoUpload NoUploadBeforeOwnMerged BucketMonotone ReadyStable
 CHECK_DEADLOCK FALSE
